@@ -157,6 +157,9 @@ Serialisable ==
        /\ Len(p.entries) = Cardinality(p.hs)
        /\ \A h \in p.hs : BodyOf(p, h) = ExpectedSlots[h]
 
+\* some goroutine can always move until all are done (a lock taken twice, or never released, stops here)
+NoDeadlock == AllDone \/ ENABLED Next
+
 \* whenever nobody is between Truncate and Write the file is a sequence of frames
 NeverTorn == (\A g \in Gs : ~trunc[g]) => Parse(file).wellformed
 =============================================================================
